@@ -54,6 +54,21 @@ theorem C14_tomls_perm {tomls tomls' : List Toml} (path : List String)
   refine sortToml_perm ?_ (h.filter _)
   exact hn.sublist ((List.filter_sublist (l := tomls)).map _)
 
+/-- LICENSES/.  `_find_licenses` fails (two files with one identifier) for every order in which
+    `glob` lists the files or for none, and when it succeeds the dictionaries hold the same entries. -/
+theorem C14_licenses_perm (ident : String → String) {ps ps' : List String} (h : ps ~ ps') :
+    (findLicenses ident ps = none ↔ findLicenses ident ps' = none) ∧
+    ∀ d d', findLicenses ident ps = some d → findLicenses ident ps' = some d' → d ~ d' := by
+  rw [findLicenses_eq, findLicenses_eq]
+  have hn : (ps.map ident).Nodup ↔ (ps'.map ident).Nodup := (h.map ident).nodup_iff
+  by_cases h1 : (ps.map ident).Nodup
+  · have h2 := hn.mp h1
+    simp only [h1, h2, if_true, Option.some.injEq, reduceCtorEq, true_and]
+    rintro d d' rfl rfl
+    exact h.map _
+  · have h2 : ¬ (ps'.map ident).Nodup := fun x => h1 (hn.mpr x)
+    simp [h1, h2]
+
 /-- Hash seed.  The repaired END pattern — one starred alternation — matches the same
     strings whatever order the alternatives are written in. -/
 theorem C14_end_perm {alts alts' : List Re} (h : alts ~ alts') (s : Text) :
